@@ -48,7 +48,8 @@ fn compartmentalize_map(map: &mut Mapping) {
     let keys = map
         .keys()
         .filter_map(Value::as_str)
-        .filter(|k| k.contains(ANY))
+        // a key that is exactly `<any>` is already in its compartmentalized form
+        .filter(|k| k.contains(ANY) && *k != ANY)
         .map(str::to_string)
         .collect::<Vec<_>>();
 
@@ -83,6 +84,12 @@ fn compartmentalize_map(map: &mut Mapping) {
     }
 }
 
+/// Sub-maps created by `compartmentalize` for wildcard entries are internal
+/// structure, they must never surface as property values.
+fn is_compartment(value: &Value) -> bool {
+    value.as_mapping().is_some_and(|map| map.contains_key(ANY))
+}
+
 impl Props {
     pub fn update_from(&mut self, base: &Value, path: &[&str]) {
         if path.is_empty() {
@@ -91,7 +98,7 @@ impl Props {
                     let Value::String(k) = k else {
                         continue;
                     };
-                    if k.contains(ANY) {
+                    if k.contains(ANY) || is_compartment(v) {
                         continue;
                     }
                     self.set(k.clone(), v.clone());
@@ -128,6 +135,9 @@ impl Props {
                 let Some(entry) = map.get(matching_key) else {
                     continue;
                 };
+                if is_compartment(entry) {
+                    continue;
+                }
                 let remaining = &matching_key[(key.len() + 1)..];
                 self.set(remaining.to_string(), entry.clone());
             }
